@@ -123,7 +123,21 @@ func runFiletree(seed int64, histories, steps int, out *Emitter) {
 			}
 			return opts[r.Intn(len(opts))]
 		}
+		qr := rand.New(rand.NewSource(seed*7919 + int64(hi) + 37))
 		for i := 0; i < steps; i++ {
+			if restartsOn && qr.Intn(150) == 0 {
+				// the network restarts from its own exported genesis (and runs its first block)
+				pre, _ := c.ftAbs()
+				e, p := c.Restart(6 * time.Second)
+				if e != "" || p != nil {
+					out.Emit(map[string]interface{}{"mod": "panic", "where": "restart", "hist": hi, "i": i, "h": c.H, "panic": fmt.Sprint(e, p)})
+					break
+				}
+				post, bad := c.ftAbs()
+				out.Emit(map[string]interface{}{"mod": "filetree", "hist": hi, "i": i, "h": c.H, "pre": pre, "op": "restart", "ok": true, "post": post,
+					"badKeys": bad, "respPath": "", "actors": actors})
+				out.Count("filetree.restart", true)
+			}
 			if r.Intn(10) == 0 {
 				c.NextBlock(6 * time.Second)
 			}
